@@ -14,6 +14,11 @@ CLAIMS = {
     "C07": ("router.ServeHTTP and Tree.Match executed with symbolic method and path: every Go run-time panic is an assertion, exactly one chain is observed per request, it is the not-found chain iff the method is unknown or no route admits, and a repeated request (also under explored map orders) gives the same outcome.", "§3/C07"),
     "C09": ("Real Headers()/SetHeaderMatcher/HeaderMatcher.Match/ServeHTTP with symbolic header presence and values against C01's oracle gated per route in every form and method.", "§3/C09"),
     "C10": ("Differential in one symbolic run: ServeHTTP (static shortcut) vs routeTrees[method].Match for the same request, after fixed registration/Headers() histories.", "§3/C10"),
+    "C03": ("A real Flame instance (Use/Group/Get/Action/ServeHTTP, createContext, run, Next, inject, default return handler) runs chains of up to 4 (quick) / 6 (thorough) handlers whose behaviour words (write before/after, 0-2 Next calls, returned body, cancellation) are symbolic choices; the recorded enter/exit event trace must equal that of a reference model written from the statement.", "§3/C03"),
+    "C04": ("Real inject (Map/MapTo/Set/SetParent/Value/Invoke/fastInvoke/callInvoke/Apply) over a declared type universe with symbolic registrations in 1-3 nested scopes, all explored map orders, against a reference resolver (nearest scope, exact type, then any implementor of that scope); error-naming, run-exactly-once, unchanged results, fast vs reflective.", "§3/C04"),
+    "C12": ("Leaf.URLPath / router.URLPath with symbolic values (any bytes), symbolic presence and withOptional, real strings.Replacer from stdlib SSA, against the substitution the statement describes; inverse clause asserted on symbolic routing runs; the demanded panics checked.", "§3/C12"),
+    "C14": ("Handlers of every supported return shape with symbolic strings/bytes/status/nil-ness run through a real Flame; status line, body bytes and chain continuation are asserted against the statement's table; reflective and teapot fast path; registered ReturnHandler replaces the table.", "§3/C14"),
+    "C15": ("Real Recovery() closure in chains with symbolic panic kind (string, error, two run-time errors, struct, failed dependency resolution), phase, earlier status, environment, nesting style: nothing escapes ServeHTTP, status/body rules, middleware in front completes, a later request is served normally.", "§3/C15"),
     "C13": ("Every k-step operation sequence (k<=4 quick, <=6 thorough) on the real responseWriter with symbolic status code, method bytes and write lengths, plus a one-step inductive lemma from an arbitrary invariant-satisfying state (sequences of any length modulo the invariant).", "§3/C13"),
 }
 
